@@ -200,6 +200,20 @@ func (r *runner) check(ops []opT, cf *lib.CasesFile, toCoq bool, family string) 
 			cf.Add(shc.gallina(), input(small))
 		}
 	}
+	if bad < 0 && (r.cfg.Thorough() || r.total%4 == 0 || !strings.HasPrefix(family, "exhaustive")) {
+		// the namespace clause, on two runs of the implementation (ns.go); quick tier: every fourth of the bounded-exhaustive
+		// histories (neighbours differ in one operation), every history of the corpus and every random one
+		what, k := checkNamespace(r.c, ops, hc.outs)
+		if k > 0 {
+			r.res.Count("history.namespace-erased")
+		}
+		if what != "" {
+			r.res.Violate(lib.Violation{Clause: "namespace", What: what + " (history: " + strings.Join(opsText(ops), "; ") + ")", Input: input(ops)})
+			if r.nviol++; r.nviol <= 20 {
+				cf.Add(hc.gallina(), input(ops))
+			}
+		}
+	}
 	if toCoq {
 		cf.Add(hc.gallina(), input(ops))
 	}
@@ -252,6 +266,9 @@ func main() {
 		r.depCorpus()
 		r.depExhaustive()
 		r.depRandom(rng)
+		// a loader parented by the dependency loader (depchild.go)
+		r.childCorpus()
+		r.childRandom(rng)
 	})
 	res.Write(cfg)
 }
@@ -259,9 +276,13 @@ func main() {
 func (r *runner) replay() {
 	cf := newCases()
 	dcf := newDepCases()
+	ccf := newChildCases()
 	defer func() {
 		if len(dcf.Cases) > 0 {
 			r.res.CorrFiles = append(r.res.CorrFiles, dcf.WriteTo(r.cfg.Out, "cases_dep_replay"))
+		}
+		if len(ccf.Cases) > 0 {
+			r.res.CorrFiles = append(r.res.CorrFiles, ccf.WriteTo(r.cfg.Out, "cases_depchild_replay"))
 		}
 	}()
 	for _, in := range lib.ReplayInputs(r.cfg.Replay) {
@@ -272,6 +293,10 @@ func (r *runner) replay() {
 		lib.Remarshal(in, &x)
 		if x.Kind == "dep" {
 			r.replayDep(in, dcf)
+			continue
+		}
+		if x.Kind == "depchild" {
+			r.replayChild(in, ccf)
 			continue
 		}
 		if x.Kind != "history" {
@@ -289,6 +314,10 @@ func (r *runner) replay() {
 				Input: input(x.Ops[:bad+1])})
 		} else {
 			fmt.Println("implementation agrees with the specification on this history")
+			if what, _ := checkNamespace(r.c, x.Ops, hc.outs); what != "" {
+				fmt.Println("FAILS the namespace clause: " + what)
+				r.res.Violate(lib.Violation{Clause: "namespace", What: what, Input: input(x.Ops)})
+			}
 		}
 		cf.Add(hc.gallina(), in)
 	}
